@@ -48,6 +48,7 @@ def models():
         "Flow(RQ coupling + unconditional transform|StandardNormal)": (lambda: perturb(FL.base.Flow(TR.PiecewiseRationalQuadraticCouplingTransform([1, 0, 1], res(None), num_bins=4, tails="linear", tail_bound=3.0, apply_unconditional_transform=True), D.StandardNormal([3]))), (3,), "none", 0, False),
         "Flow(Inverse(MAF ctx)|StandardNormal)": (lambda: perturb(FL.base.Flow(TR.InverseTransform(TR.MaskedAffineAutoregressiveTransform(3, 8, context_features=3, num_blocks=1)), D.StandardNormal([3])), 5), (3,), "required", 3, False),
         "Flow(NaiveLinear cached + affine|StandardNormal)": (lambda: perturb(FL.base.Flow(TR.CompositeTransform([TR.NaiveLinear(3, orthogonal_initialization=False, using_cache=True), TR.PointwiseAffineTransform(shift=torch.tensor([0.3, -0.2, 0.1]), scale=torch.tensor([1.5, 0.7, 2.0]))]), D.StandardNormal([3])), 7), (3,), "none", 0, False),
+        "Flow(SVD + affine|StandardNormal)": (lambda: perturb(FL.base.Flow(TR.CompositeTransform([TR.SVDLinear(3, num_householder=4, identity_init=False), TR.PointwiseAffineTransform(shift=torch.tensor([0.1, -0.3, 0.2]), scale=torch.tensor([2.0, 0.6, 1.3])), TR.QRLinear(3, num_householder=3)]), D.StandardNormal([3])), 13), (3,), "none", 0, False),
         "MaskedAutoregressiveFlow": (lambda: perturb(FL.MaskedAutoregressiveFlow(3, 8, num_layers=2, num_blocks_per_layer=1)), (3,), "none", 0, False),
         "MaskedAutoregressiveFlow/random-permutations": (lambda: perturb(FL.MaskedAutoregressiveFlow(4, 8, num_layers=2, num_blocks_per_layer=1, use_random_permutations=True)), (4,), "none", 0, False),
         "Flow(Logit T=1.5 + LU|StandardNormal)": (lambda: perturb(FL.base.Flow(TR.CompositeTransform([TR.Logit(temperature=1.5), TR.LULinear(3, identity_init=False)]), D.StandardNormal([3])), 9), (3,), "none", 0, False),
